@@ -1,5 +1,6 @@
 import Cuckoo.Model.Par
 import Cuckoo.Proofs.Migrate
+import Cuckoo.Proofs.ParAux
 /-!
 # C02 (helper threads) — the work of a batch migration / rebuild is handed out completely and without overlap
 
@@ -7,8 +8,10 @@ import Cuckoo.Proofs.Migrate
 `parallel_exec(_noexcept)`: `max_num_worker_threads()` helper threads get equal chunks, the caller the rest.
 For every range and every number of workers the chunks are consecutive, disjoint and cover the range exactly
 (`splitWork_partition`); consequently running the chunks one after the other is the sequential loop
-(`migrate_chunks_eq`).  That concurrent chunks commute (they touch disjoint stripes) is not proved here; the K2
-streams with `setworkers` compare the real table's state after batch migrations with the model's sequential result.
+(`fold_chunks_eq`), and two different stripes migrate independently (`rehashLock_comm`), so that EVERY order in which
+the helpers get through their stripes — every interleaving at the granularity of whole `rehash_lock` calls — leaves
+exactly the table of the sequential loop (`migrate_any_order`, `migrate_with_workers`).  The K2 streams with
+`setworkers` compare the real table's state after batch migrations with the model's sequential result.
 -/
 namespace Cuckoo.Props.C02Par
 open Cuckoo Cuckoo.Model
@@ -54,6 +57,35 @@ run on one thread is the sequential loop -/
 theorem fold_chunks_eq {σ : Type} (f : σ → Nat → σ) (x : σ) (s e workers : Nat) (h : s ≤ e) :
     (splitWork s e workers).foldl (fun acc c => (chunkIdx c).foldl f acc) x = (List.range' s (e - s)).foldl f x := by
   rw [← splitWork_partition s e workers h, List.foldl_flatMap]
+
+/-! ### helper threads may process the stripes in any order
+
+`rehash_with_workers` runs `rehash_lock<not lazy>(i)` for the stripes of each chunk on a different thread.  Two stripes
+own disjoint sets of buckets (old buckets `≡ i (mod M)` and the buckets they split into), so the calls commute, and
+every schedule of the helpers — at the granularity of whole `rehash_lock` calls: any order in which each stripe index
+occurs once — leaves the very same table as the sequential loop of the model.  (Interleavings *inside* two calls touch
+disjoint memory; that finer granularity is an assumption, stated in the manifest.) -/
+
+/-- two different stripes migrate independently -/
+theorem rehashLock_comm (c : Cfg κ) (t : Table κ ν) (h : Inv c t) (i j : Nat) (hij : i ≠ j) :
+    (t.rehashLock c i false).rehashLock c j false = (t.rehashLock c j false).rehashLock c i false :=
+  rehashLock_comm_of_le c t h.locks_le i j hij
+
+/-- every order of the stripes gives the table the sequential batch migration gives -/
+theorem migrate_any_order (c : Cfg κ) (t : Table κ ν) (h : Inv c t) (order : List Nat)
+    (hp : order.Perm (List.range t.locks.size)) :
+    (order.foldl (fun t l => t.rehashLock c l false) t).setRem 0 = t.migrateAll c := by
+  rw [foldl_rehashLock_perm c t h.locks_le hp, List.range_eq_range', ← migrateAll_go_eq_foldl]
+  rfl
+
+/-- in particular every interleaving of the chunks handed to the helper threads -/
+theorem migrate_with_workers (c : Cfg κ) (t : Table κ ν) (h : Inv c t) (workers : Nat) (order : List Nat)
+    (hp : order.Perm ((splitWork 0 t.locks.size workers).flatMap chunkIdx)) :
+    (order.foldl (fun t l => t.rehashLock c l false) t).setRem 0 = t.migrateAll c := by
+  apply migrate_any_order c t h order
+  rw [splitWork_partition 0 t.locks.size workers (Nat.zero_le _), Nat.sub_zero] at hp
+  rw [List.range_eq_range']
+  exact hp
 
 example : splitWork 0 10 3 = [(0, 2), (2, 4), (4, 6), (6, 10)] := by decide
 example : splitWork 3 3 2 = [(3, 3), (3, 3), (3, 3)] := by decide
